@@ -412,6 +412,22 @@ class MinimizerBase(object):
 
         return _arrow_specs
 
+    def _get_parameter_scale(self):
+        """
+        Natural length scale of every parameter: the last known parameter uncertainty (initially the
+        step size), falling back to 10% of the parameter value (0.1 if the value is zero).
+        """
+        _par_vals = np.array(self.parameter_values, dtype=float)
+        _default_scale = np.where(_par_vals != 0, 0.1 * np.abs(_par_vals), 0.1)
+        try:
+            _scale = np.array(self.parameter_errors, dtype=float)
+        except (TypeError, ValueError):
+            return _default_scale
+        if _scale.shape != _par_vals.shape:
+            return _default_scale
+        _valid = np.isfinite(_scale) & (_scale > 0)
+        return np.where(_valid, _scale, _default_scale)
+
     def _remove_zeroes_for_fixed(self, matrix):
         """
         Takes a full error matrix and removes the rows and
@@ -571,7 +587,12 @@ class MinimizerBase(object):
         if not self.did_fit:
             return None
         if self._hessian is None:
-            self._hessian = nd.Hessian(self._func_wrapper_unpack_args)(self.parameter_values)
+            # numdifftools chooses absolute step sizes (about 3e-3 ... 4): differentiate with respect to
+            # (p - p_min) / scale so that the result does not depend on the units of the parameters.
+            _par_vals = np.array(self.parameter_values, dtype=float)
+            _scale = self._get_parameter_scale()
+            _hessian_scaled = nd.Hessian(lambda _u: self._func_wrapper_unpack_args(_par_vals + _u * _scale))(np.zeros_like(_par_vals))
+            self._hessian = _hessian_scaled / np.outer(_scale, _scale)
             assert np.all(self._hessian == self._hessian.T)
             # Write back parameter values to nexus parameter nodes:
             self._func_wrapper_unpack_args(self.parameter_values)
